@@ -1223,6 +1223,48 @@ pub fn mono(genv: GlobalTypeEnv, file: core::File) -> (MonoFile, GlobalMonoEnv) 
         });
     }
 
+    // Non-generic definitions can mention generic instances in their field types
+    // (`struct H { f: Box[int32] }`): specialise those too.
+    let plain_structs: Vec<StructDef> = m
+        .struct_base
+        .values()
+        .filter(|def| def.generics.is_empty())
+        .cloned()
+        .collect();
+    for def in plain_structs {
+        let fields: Vec<(TastIdent, Ty)> = def
+            .fields
+            .iter()
+            .map(|(n, t)| (n.clone(), m.collapse_type_apps(t)))
+            .collect();
+        if let Some(target) = m.monoenv.struct_def_mut(&def.name) {
+            target.fields = fields;
+        }
+    }
+    let plain_enums: Vec<EnumDef> = m
+        .enum_base
+        .values()
+        .filter(|def| def.generics.is_empty())
+        .cloned()
+        .collect();
+    for def in plain_enums {
+        let variants: Vec<(TastIdent, Vec<Ty>)> = def
+            .variants
+            .iter()
+            .map(|(n, ts)| (n.clone(), ts.iter().map(|t| m.collapse_type_apps(t)).collect()))
+            .collect();
+        if m.monoenv.mono_enums.contains_key(&def.name) {
+            if let Some(target) = m.monoenv.mono_enums.get_mut(&def.name) {
+                target.variants = variants;
+            }
+        } else {
+            m.monoenv
+                .genv
+                .ensure_enum_placeholder(def.name.clone(), vec![])
+                .variants = variants;
+        }
+    }
+
     // Drop all generic enum defs to avoid Go backend panics
     m.monoenv.retain_enums(|_n, def| def.generics.is_empty());
     m.monoenv.retain_structs(|_n, def| def.generics.is_empty());
